@@ -33,7 +33,7 @@ def sizes(dt: float, duration: float, incl: bool):
     return ex, fl
 
 
-def _mk(kind, dtype, shape, dt, duration, incl):
+def _mk(kind, dtype, shape, dt, duration, incl, live=False):
     from inferno.core.infrastructure import Module, RecordTensor
 
     owner = Module()
@@ -50,7 +50,7 @@ def _mk(kind, dtype, shape, dt, duration, incl):
         v = nn.UninitializedBuffer(dtype=tdt)
     elif kind == "uparam":
         v = nn.UninitializedParameter(requires_grad=False, dtype=tdt)
-    RecordTensor.create(owner, "rec", dt, duration, v, inclusive=incl)
+    RecordTensor.create(owner, "rec", dt, duration, v, inclusive=incl, live=live)
     return owner, owner.rec
 
 
@@ -81,7 +81,7 @@ def run_temporal(case):
     dt, dur, incl = case["dt"], case["duration"], case["inclusive"]
     stats = dict.fromkeys(["amb", "resize_ptr", "resize", "grow", "shrink", "noop", "uninit_resize"], 0)
     with impl("construct"):
-        owner, rt = _mk(case["kind"], case["dtype"], shape, dt, dur, incl)
+        owner, rt = _mk(case["kind"], case["dtype"], shape, dt, dur, incl, case.get("live", False))
     n = _check_size(rt, dt, dur, incl, "construct", stats)
     ring = Ring(n, shape, case["dtype"]) if case["kind"] in ("zeros", "param") else None
     pushes = 0
@@ -198,7 +198,8 @@ def temporal_case(draw, tier="quick"):
                 ops.append(["push", draw(_pool), draw(st.booleans())])
         else:
             ops.append(["incr", draw(st.integers(0, 9))])
-    return {"dt": dt, "duration": dur, "inclusive": incl, "kind": kind, "dtype": dtype, "shape": shape, "ops": ops}
+    return {"dt": dt, "duration": dur, "inclusive": incl, "kind": kind, "dtype": dtype, "shape": shape, "ops": ops,
+            "live": draw(st.booleans())}
 
 
 # ---------------------------------------------------------------------------- size grid
@@ -337,6 +338,21 @@ def run_constraints(case):
             else:
                 # edit
                 stats["edits"] += 1
+                nd_ = len(shp)
+                norm = {}
+                consistent = True
+                pos_ = [d for d in model if d >= 0]
+                neg_ = [d for d in model if d < 0]
+                need = ((max(pos_) + 1 if pos_ else 0) + (-min(neg_) if neg_ else 0)) if strict else max(max(pos_) + 1 if pos_ else 0, -min(neg_) if neg_ else 0)
+                if nd_ >= need:
+                    for dd, ss in {**model, dim: size}.items():
+                        key = dd if dd >= 0 else nd_ + dd
+                        if norm.setdefault(key, ss) != ss:
+                            consistent = False
+                    # documented: a tensor of sufficient dimensionality under consistent constraints is resized, not refused
+                    check(not (consistent and raised is not None), "edit:refused-valid",
+                          lambda: f"{what}: edit refused ({raised!r}) although the tensor (shape {shp}) has sufficient dimensionality and "
+                                  f"the constraints {model} | {{{dim}: {size}}} are consistent (strict={strict}, live={case['live']})")
                 if raised is None:
                     model[dim] = size
                     check(after == model, "edit:bookkeeping", lambda: f"{what}: constraints {after} != {model}")
@@ -369,7 +385,10 @@ def run_constraints(case):
                     check(after == cons_before, "edit:sideeffect", lambda: f"{what}: refused edit changed constraints {cons_before} -> {after}")
                     check(torch.equal(x.value.detach(), snap), "edit:refused-data", f"{what}: refused edit altered data")
         elif op[0] == "assign":
-            newshape = tuple(max(1, s) for s in op[1])[: max(1, len(shp))] if op[2] == 0 else shp
+            newshape = tuple(max(0, s) for s in op[1])[: max(1, len(shp))] if op[2] == 0 else shp
+            if not rec and len(newshape) <= 1:
+                # a 1-d tensor without elements is the documented "ignored" placeholder: keep such values non-empty
+                newshape = tuple(max(1, s) for s in newshape)
             if rec:
                 full = (x.recordsz,) + tuple(newshape)
             else:
@@ -422,7 +441,7 @@ def constraints_case(draw, tier="quick"):
                 size = draw(st.sampled_from([shape[d], shape[d], size]))
             ops.append(["reconstrain", d, size])
         else:
-            ops.append(["assign", draw(st.lists(st.integers(1, 4), min_size=nd, max_size=nd)), draw(st.integers(0, 1))])
+            ops.append(["assign", draw(st.lists(st.sampled_from([1, 2, 3, 4, 0]), min_size=nd, max_size=nd)), draw(st.integers(0, 1))])
     return {"record": draw(st.booleans()), "strict": draw(st.booleans()), "live": draw(st.booleans()),
             "param": draw(st.booleans()), "n": draw(st.integers(1, 3)), "shape": shape,
             "cons": [list(c) for c in cons], "ops": ops}
